@@ -16,6 +16,7 @@
 (*         UnknownType UnknownMember NotCallable NotIndexable              *)
 (*         BreakOutsideLoop ReturnOutside DuplicateDef NonConstGlobal      *)
 (*         ImplicitAny MainShape LoopBody BadCast BadOperator              *)
+(*         ImplMismatch TriggerShape                                       *)
 (*                                                                         *)
 (* The tables (operators per type, builtin members, builtin functions) are *)
 (* frozen here: an analyzer that admits more, rejects more or stops        *)
@@ -90,6 +91,13 @@ Compat(got, exp, fnok) ==
                             got.ps[h].n = exp.ps[j].n /\ Compat(got.ps[h].t, exp.ps[j].t, fnok)
            [] OTHER -> TRUE
 
+\* two function types of the same shape: parameters are compared by position, their names do not matter
+CompatShape(got, exp) ==
+    /\ got.k = "fn" /\ exp.k = "fn" /\ ~IsVar(got) /\ ~IsVar(exp)
+    /\ Compat(got.r, exp.r, TRUE)
+    /\ Len(got.ps) = Len(exp.ps)
+    /\ \A j \in 1..Len(exp.ps) : Compat(got.ps[j].t, exp.ps[j].t, TRUE) /\ Compat(exp.ps[j].t, got.ps[j].t, TRUE)
+
 -----------------------------------------------------------------------------
 (* frozen tables *)
 IntArith == {"+", "-", "*", "/", "%", "**", "<<", ">>", "|", "&", "^"}
@@ -155,6 +163,17 @@ Builtin(name) ==
       [] name = "fmt" -> TVarFn(<<TStr>>, TStr)
       [] name = "throw" -> TFn(<<PR("error", TNever)>>, TNever)
       [] name = "log" -> F2("base", TFloat, "value", TFloat, TFloat)
+      [] OTHER -> NIL
+
+\* what the host of the test bench offers for `import trigger .. from triggers;` and `import templ .. from templates;`
+HostTrigger(name) ==
+    CASE name = "minute" -> [args |-> TFn(<<PR("minutes", TInt)>>, TNull), cb |-> TFn(<<PR("elapsed", TInt)>>, TNull)]
+      [] OTHER -> NIL
+HostTemplate(name) ==
+    CASE name = "FooFeature" ->
+            [methods |-> [dim |-> TFn(<<PR("percent", TInt)>>, TBool), set_temp |-> TFn(<<PR("celsius", TFloat)>>, TNull)],
+             caps |-> [light |-> [req |-> {"dim"}, conflicts |-> {"temperature"}],
+                       temperature |-> [req |-> {"set_temp"}, conflicts |-> {"light"}]]]
       [] OTHER -> NIL
 
 -----------------------------------------------------------------------------
@@ -306,6 +325,15 @@ CheckStmt(env, ctx, s) ==
                  IF b.c # "ok" THEN b
                  ELSE IF ~LoopBodyOk(b.t) THEN Fail("LoopBody")
                  ELSE Res("ok", TNull, it.nv, FALSE, env, it.pr \o b.pr)
+      [] s.k = "trigger" ->
+            LET tr == IF s.ev \in ctx.triggers THEN HostTrigger(s.ev) ELSE NIL IN
+            IF tr = NIL THEN Fail("UnknownIdent")                                   \* the trigger is not imported
+            ELSE IF s.cb \notin DOMAIN ctx.fns THEN Fail("UnknownIdent")            \* no such callback function
+            ELSE IF s.cb = ctx.self THEN Fail("TriggerShape")                       \* a function must not trigger itself
+            ELSE IF ~ctx.events[s.cb] THEN Fail("TriggerShape")                     \* the callback needs the `event` modifier
+            ELSE IF ~CompatShape(ctx.fns[s.cb], tr.cb) THEN Fail("TriggerShape")    \* ... and the signature the trigger calls it with
+            ELSE LET r == CallWith(env, ctx, tr.args, s.args, FALSE) IN
+                 IF r.c # "ok" THEN r ELSE Res("ok", TNull, r.nv, FALSE, env, r.pr)
       [] OTHER -> Fail("unspec")
 
 TypeOfRaw(env, ctx, e) ==
@@ -433,7 +461,7 @@ TypeOfRaw(env, ctx, e) ==
                  IF TypeError(ft) # "ok" THEN Fail(TypeError(ft))
                  ELSE LET env1 == env \o [j \in 1..Len(e.ps) |-> [n |-> e.ps[j], t |-> e.pts[j]]]
                           \* a function literal is a function of its own: return refers to it, no loop surrounds its body
-                          b == CheckBlock(env1, [ctx EXCEPT !.ret = e.ret, !.loop = 0], e.body, TRUE) IN
+                          b == CheckBlock(env1, [ctx EXCEPT !.ret = e.ret, !.loop = 0, !.self = ""], e.body, TRUE) IN
                       IF b.c # "ok" THEN b
                       ELSE IF ~Compat(b.t, e.ret, TRUE) THEN Fail("ReturnMismatch")
                       ELSE Good(ft, b.nv, FALSE, b.pr)
@@ -452,7 +480,10 @@ IsConst(e) ==
       [] e.k = "cast" -> IsConst(e.e)
       [] OTHER -> FALSE
 
+\* the type callers see: singleton parameters are bound by the callee, not passed
 FnType(f) == TFn([j \in 1..Len(f.ps) |-> PR(f.ps[j], f.pts[j])], f.ret)
+SingType(p, name) == LET hit == {j \in 1..Len(p.sings) : p.sings[j].n = name} IN
+                     IF hit = {} THEN NIL ELSE p.sings[CHOOSE j \in hit : TRUE].t
 
 RECURSIVE CheckGlobals(_, _, _, _), CheckFns(_, _, _, _, _)
 CheckGlobals(p, ctx, j, acc) ==
@@ -469,19 +500,52 @@ CheckFns(p, ctx, names, env, acc) ==
     ELSE LET f == p.fns[Head(names)] IN
          IF \E a, b \in 1..Len(f.ps) : a # b /\ f.ps[a] = f.ps[b] THEN Fail("DuplicateDef")
          ELSE IF TypeError(FnType(f)) # "ok" THEN Fail(TypeError(FnType(f)))
-         ELSE LET env1 == env \o [j \in 1..Len(f.ps) |-> [n |-> f.ps[j], t |-> f.pts[j]]]
-                  b == CheckBlock(env1, [ctx EXCEPT !.ret = f.ret], f.body, TRUE) IN
+         ELSE IF \E j \in 1..Len(f.sps) : SingType(p, f.sps[j][2]) = NIL THEN Fail("UnknownType")     \* extraction of an undeclared singleton
+         ELSE IF \E a, b \in 1..Len(f.sps) : a # b /\ f.sps[a][2] = f.sps[b][2] THEN Fail("DuplicateDef")
+         ELSE LET env1 == env \o [j \in 1..Len(f.sps) |-> [n |-> f.sps[j][1], t |-> SingType(p, f.sps[j][2])]]
+                             \o [j \in 1..Len(f.ps) |-> [n |-> f.ps[j], t |-> f.pts[j]]]
+                  b == CheckBlock(env1, [ctx EXCEPT !.ret = f.ret, !.self = Head(names)], f.body, TRUE) IN
               IF b.c # "ok" THEN b
               ELSE IF ~Compat(b.t, f.ret, TRUE) THEN Fail("ReturnMismatch")
               ELSE CheckFns(p, ctx, Tail(names), env, [acc EXCEPT !.pr = @ \o b.pr])
 
+(* impl blocks: `impl T [with { caps }] for $S { methods }`.  The capabilities select the methods the template requires; *)
+(* exactly those must be implemented, with the template's parameter names and types, its return type, no modifier, and  *)
+(* each must extract the singleton it is implemented for.                                                                *)
+ImplError(p, im) ==
+    LET tp == IF im.templ \in Range1(p.imports.templ) THEN HostTemplate(im.templ) ELSE NIL IN
+    IF SingType(p, im.sing) = NIL THEN "ImplMismatch"
+    ELSE IF tp = NIL THEN "ImplMismatch"
+    ELSE IF \E c \in Range1(im.caps) : c \notin DOMAIN tp.caps THEN "ImplMismatch"
+    ELSE IF \E c, d \in Range1(im.caps) : d \in tp.caps[c].conflicts THEN "ImplMismatch"
+    ELSE LET req == UNION { tp.caps[c].req : c \in Range1(im.caps) }
+             have == Range1(im.methods) IN
+         IF req # have THEN "ImplMismatch"                                          \* a method is missing or not part of the template
+         ELSE IF \E m \in have :
+                    LET f == p.fns[m] IN
+                    \/ ~CompatShape(FnType(f), tp.methods[m])
+                    \/ \E j \in 1..Len(f.ps) : f.ps[j] # tp.methods[m].ps[j].n        \* parameter names are part of the template
+                    \/ f.event
+                    \/ ~\E j \in 1..Len(f.sps) : f.sps[j][2] = im.sing
+              THEN "ImplMismatch"
+         ELSE "ok"
+
 CheckProgram(p) ==
     LET names == SetToSeq(DOMAIN p.fns)
-        ctx0 == [fns |-> [n \in DOMAIN p.fns |-> FnType(p.fns[n])], ret |-> NIL, loop |-> 0, spawn |-> FALSE] IN
+        ctx0 == [fns |-> [n \in DOMAIN p.fns |-> FnType(p.fns[n])], events |-> [n \in DOMAIN p.fns |-> p.fns[n].event],
+                 triggers |-> Range1(p.imports.trig), self |-> "", ret |-> NIL, loop |-> 0, spawn |-> FALSE]
+        \* singletons are values of the root scope, named like their declaration
+        senv == [j \in 1..Len(p.sings) |-> [n |-> p.sings[j].n, t |-> p.sings[j].t]]
+        badimpl == {j \in 1..Len(p.impls) : ImplError(p, p.impls[j]) # "ok"} IN
     IF p.dups # <<>> THEN Fail("DuplicateDef")                                   \* a function name defined twice
     ELSE IF p.needmain /\ "main" \notin DOMAIN p.fns THEN Fail("MainShape")
     ELSE IF "main" \in DOMAIN p.fns /\ (p.fns["main"].ps # <<>> \/ p.fns["main"].ret.k # "null") THEN Fail("MainShape")
-    ELSE LET g == CheckGlobals(p, ctx0, 1, Res("ok", TNull, FALSE, FALSE, <<>>, <<>>)) IN
+    ELSE IF \E t \in Range1(p.imports.trig) : HostTrigger(t) = NIL THEN Fail("UnknownIdent")
+    ELSE IF \E t \in Range1(p.imports.templ) : HostTemplate(t) = NIL THEN Fail("UnknownIdent")
+    ELSE IF \E a, b \in 1..Len(p.sings) : a # b /\ p.sings[a].n = p.sings[b].n THEN Fail("DuplicateDef")
+    ELSE IF \E j \in 1..Len(p.sings) : TypeError(p.sings[j].t) # "ok" THEN Fail("UnknownType")
+    ELSE IF badimpl # {} THEN Fail("ImplMismatch")
+    ELSE LET g == CheckGlobals(p, ctx0, 1, Res("ok", TNull, FALSE, FALSE, senv, <<>>)) IN
          IF g.c # "ok" THEN g
          ELSE LET f == CheckFns(p, ctx0, names, g.env, Res("ok", TNull, FALSE, FALSE, <<>>, <<>>)) IN
               IF f.c # "ok" THEN f ELSE [f EXCEPT !.pr = g.pr \o @]
